@@ -734,6 +734,17 @@ theorem step_WF (fmtReal : Nat → List Nat) (op : Op) (env : Env) (h : EnvWF en
   | removeIdx t i => exact EnvWF_onTarget _ _ _ h (fun v hv => WF_removeIdx i v hv)
   | reset t => exact EnvWF_onTarget _ _ _ h (fun _ _ => WF_undef)
   | compress t => exact EnvWF_onTarget _ _ _ h (fun v hv => WF_compress v hv)
+  | clear t =>
+    refine EnvWF_onTarget _ _ _ h (fun v hv => ?_)
+    cases v <;> simp_all [clearDoc, WF, WFItems, WFSlots, keysNodup, keysOf, liveEntries]
+  | reserve t k n =>
+    simp only [step]
+    cases hr : reservedDoc k n with
+    | none => exact EnvWF_onTarget _ _ _ h (fun _ hv => hv)
+    | some x =>
+      refine EnvWF_onTarget _ _ _ h (fun _ _ => ?_)
+      unfold reservedDoc at hr
+      split at hr <;> simp at hr <;> subst hr <;> simp [WF, WFItems, WFSlots, keysNodup, keysOf, liveEntries]
   | groupBy dest s k =>
     simp only [step]
     split
